@@ -1,1 +1,26 @@
 //! Hooks for property C36.
+//!
+//! Thin public wrappers around `pub(crate)` initialisers of [`Executor`] and
+//! [`TimelockConfig`] (used by the harness to build pre-existing accounts). No logic lives here.
+
+use anchor_lang::prelude::*;
+
+use crate::states::{config::TimelockConfig, Executor};
+
+pub fn executor_try_init(
+    e: &mut Executor,
+    bump: u8,
+    wallet_bump: u8,
+    store: Pubkey,
+    role_name: &str,
+) -> Result<()> {
+    e.try_init(bump, wallet_bump, store, role_name)
+}
+
+pub fn timelock_config_init(c: &mut TimelockConfig, bump: u8, delay: u32, store: Pubkey) {
+    c.init(bump, delay, store)
+}
+
+pub fn timelock_config_increase_delay(c: &mut TimelockConfig, delta: u32) -> Result<u32> {
+    c.increase_delay(delta)
+}
